@@ -508,6 +508,15 @@ func (e *engine) runFrom(fr *frame, b *ssa.BasicBlock, i int) {
 				e.runFrom(fr, b, ii+1)
 			})
 			return
+		case *ssa.Lookup:
+			ii, inn := i, in
+			if e.lookupLocal(fr, in, func(res *Term) {
+				e.setEnv(fr, inn, res)
+				e.runFrom(fr, b, ii+1)
+			}) {
+				return
+			}
+			e.setEnv(fr, in, e.eval(fr, in))
 		case *ssa.Store:
 			e.store(fr, in, e.val(fr, in.Addr), e.val(fr, in.Val))
 		case *ssa.MapUpdate:
@@ -733,10 +742,6 @@ func (e *engine) eval(fr *frame, in ssa.Value) *Term {
 		if t.Op == "tuple" && in.Index < len(t.Args) {
 			return t.Args[in.Index]
 		}
-		if in.Index == 1 && t.Op == "lookup" && e.freshEmptyMap(t.Args[0]) {
-			// a comma-ok probe of a map made on this path that nothing has been put into yet
-			return boolTerm(false)
-		}
 		return &Term{Op: "extract", Name: strconv.Itoa(in.Index), Args: []*Term{t}, Typ: in.Type()}
 	case *ssa.MakeInterface:
 		x := e.val(fr, in.X)
@@ -899,6 +904,14 @@ func binop(op token.Token, x, y *Term, T types.Type) *Term {
 				return not(binop(token.EQL, a, b, T))
 			}
 		}
+	}
+	// string(a) == string(b) over byte slices is bytes.Equal(a, b)
+	if (op == token.EQL || op == token.NEQ) && isBytesAsString(x) && isBytesAsString(y) {
+		eq := &Term{Op: "call", Name: "bytes.Equal", Args: []*Term{x.Args[0], y.Args[0]}, Typ: T}
+		if op == token.EQL {
+			return eq
+		}
+		return &Term{Op: "un", Name: "!", Args: []*Term{eq}, Typ: T}
 	}
 	xs, ys := x.String(), y.String()
 	switch op {
@@ -1945,6 +1958,14 @@ func (e *engine) builtin(fr *frame, site ssa.Instruction, name string, args []*T
 		if x.IsNil() {
 			return intTerm(0)
 		}
+		// len(make([]T, n, c)) is n, whatever has been stored into the elements since
+		mk := x
+		for mk.Op == "filled" && len(mk.Args) == 2 {
+			mk = mk.Args[0]
+		}
+		if mk.Op == "make" && mk.Name == "slice" && len(mk.Args) == 2 && mk.Args[0] != nil {
+			return mk.Args[0]
+		}
 		return &Term{Op: "call", Name: "builtin.len", Args: []*Term{strip(x)}, Typ: resT}
 	case "cap", "min", "max", "real", "imag", "complex":
 		return &Term{Op: "call", Name: "builtin." + name, Args: args, Typ: resT}
@@ -2396,28 +2417,139 @@ func privateModuleIface(m *types.Func) bool {
 	return ok && !n.Obj().Exported()
 }
 
-// freshEmptyMap: m is a map made on the current path that has not been written and has not
-// been handed to anything (call argument, store, closure binding) so far.
-func (e *engine) freshEmptyMap(m *Term) bool {
-	if m.Op != "make" || m.Name != "map" {
+// localOnlyMap: the map made by mk is used by probes, writes, deletes and len only - it is never
+// stored into a variable cell (captured by a closure), bound, passed or ranged over, so every
+// write to it is an instruction on the current path.  It may be RETURNED by the function that
+// makes it (a constructor of a lookup table): the writes of the making function then precede
+// the hand-over, and the caller's use is judged at the caller's instruction (scratchUse).
+func localOnlyMap(mk *ssa.MakeMap) bool { return scratchUse(mk, true) }
+
+func scratchUse(v ssa.Value, mayReturn bool) bool {
+	if v.Referrers() == nil {
 		return false
+	}
+	for _, r := range *v.Referrers() {
+		switch u := r.(type) {
+		case *ssa.Lookup:
+			if u.X != v {
+				return false
+			}
+		case *ssa.MapUpdate:
+			if u.Map != v {
+				return false
+			}
+		case *ssa.DebugRef:
+		case *ssa.Return:
+			if !mayReturn {
+				return false
+			}
+		case *ssa.Call:
+			b, isB := u.Call.Value.(*ssa.Builtin)
+			if !isB || (b.Name() != "len" && b.Name() != "delete") {
+				return false
+			}
+		default:
+			return false
+		}
+	}
+	return true
+}
+
+// scratchAt: the map operand x of an instruction of the current frame denotes a scratch map -
+// either the map made by this function, or the result of a static call whose use here is
+// scratch use as well (the callee made and returned it; m's making function is that callee).
+func scratchAt(x ssa.Value, mk *ssa.MakeMap) bool {
+	if x == mk {
+		return true
+	}
+	if call, ok := x.(*ssa.Call); ok {
+		if callee := call.Common().StaticCallee(); callee != nil && callee == mk.Parent() {
+			return scratchUse(call, false)
+		}
+	}
+	return false
+}
+
+// localMapEntries: the (key, value) pairs put into the local-only map m on the current path, in
+// order; ok is false when the map is not local-only, was made elsewhere, or had a deletion.
+func (e *engine) localMapEntries(m *Term) (keys, vals []*Term, ok bool) {
+	if m.Op != "make" || m.Name != "map" {
+		return nil, nil, false
+	}
+	mk, isMk := m.Site.(*ssa.MakeMap)
+	if !isMk || !localOnlyMap(mk) {
+		return nil, nil, false
 	}
 	k := m.Key()
 	for i := range e.events {
 		ev := &e.events[i]
-		switch ev.Kind {
-		case EvFact:
+		if ev.Place == nil || ev.Place.Key() != k {
 			continue
-		case EvMapUpdate, EvMapDelete:
-			if ev.Place != nil && ev.Place.Key() == k {
-				return false
-			}
 		}
-		for _, t := range []*Term{ev.Call, ev.Fun, ev.Val, ev.Res} {
-			if t != nil && strings.Contains(t.Key(), k) {
-				return false
-			}
+		switch ev.Kind {
+		case EvMapUpdate:
+			keys, vals = append(keys, ev.Cond), append(vals, ev.Val)
+		case EvMapDelete:
+			return nil, nil, false
 		}
 	}
+	return keys, vals, true
+}
+
+// lookupLocal models a probe of a local-only map whose entries are all known on the current
+// path as the search it is: the latest entry with an equal key answers, otherwise the zero
+// value (and false).  Returns false when the probe stays opaque.
+func (e *engine) lookupLocal(fr *frame, in *ssa.Lookup, cont func(*Term)) bool {
+	if _, isMap := in.X.Type().Underlying().(*types.Map); !isMap {
+		return false
+	}
+	m := e.val(fr, in.X)
+	keys, vals, ok := e.localMapEntries(m)
+	if !ok || len(keys) > e.o.MaxVisits+2 {
+		return false
+	}
+	if mk := m.Site.(*ssa.MakeMap); !scratchAt(in.X, mk) {
+		return false
+	}
+	key := e.val(fr, in.Index)
+	boolT := types.Typ[types.Bool]
+	mt := in.X.Type().Underlying().(*types.Map)
+	result := func(v *Term, hit bool) *Term {
+		if in.CommaOk {
+			return &Term{Op: "tuple", Args: []*Term{v, boolTerm(hit)}, Typ: in.Type()}
+		}
+		return v
+	}
+	var step func(i int)
+	step = func(i int) {
+		if i < 0 {
+			cont(result(zeroOf(mt.Elem()), false))
+			return
+		}
+		r := binop(token.EQL, keys[i], key, boolT)
+		mk := e.mark()
+		if e.assume(r, true, in, fr) {
+			cont(result(vals[i], true))
+		}
+		e.undo(mk)
+		if e.assume(r, false, in, fr) {
+			step(i - 1)
+		}
+		e.undo(mk)
+	}
+	step(len(keys) - 1)
 	return true
+}
+
+// isBytesAsString: string(b) for a byte slice b.
+func isBytesAsString(t *Term) bool {
+	if t.Op != "convert" || t.Name != "string" || len(t.Args) != 1 || t.Args[0].Typ == nil {
+		return false
+	}
+	sl, ok := t.Args[0].Typ.Underlying().(*types.Slice)
+	if !ok {
+		return false
+	}
+	b, ok := sl.Elem().Underlying().(*types.Basic)
+	return ok && b.Kind() == types.Uint8
 }
